@@ -1448,29 +1448,35 @@ fn main() {
         exhaustive_flag = false;
     } else {
         let thorough = cli.tier == "thorough";
-        let workers = 6usize;
+        let workers = 8usize;
         // (config, fill, depth) jobs of the exhaustive part
         let mut jobs: Vec<(Cfg, usize, usize)> = vec![
             (Cfg::I(3), 2, 3),
+            (Cfg::I(2), 1, 3),
+            (Cfg::I(4), 4, 3),
             (Cfg::T(8, true), 2, 3),
-            (Cfg::I(2), 1, 2),
-            (Cfg::I(4), 4, 2),
+            (Cfg::T(8, true), 4, 3),
+            (Cfg::T(64, true), 1, 3),
+            (Cfg::T(16, false), 2, 3),
+            (Cfg::T(4, true), 7, 2),
             (Cfg::I(1), 0, 2),
             (Cfg::I(6), 3, 2),
             (Cfg::T(8, false), 4, 2),
-            (Cfg::T(4, true), 7, 2),
-            (Cfg::T(16, true), 2, 2),
             (Cfg::T(32, false), 3, 2),
-            (Cfg::T(64, true), 1, 2),
+            (Cfg::T(32, true), 2, 2),
+            (Cfg::T(4, false), 8, 2),
+            (Cfg::T(16, true), 1, 2),
+            (Cfg::T(64, false), 0, 2),
         ];
         if thorough {
             jobs.extend([
                 (Cfg::I(4), 2, 3),
                 (Cfg::I(3), 0, 3),
-                (Cfg::T(8, true), 4, 3),
+                (Cfg::I(6), 3, 3),
                 (Cfg::T(4, false), 2, 3),
-                (Cfg::T(64, true), 1, 3),
-                (Cfg::T(16, false), 2, 3),
+                (Cfg::T(4, true), 8, 3),
+                (Cfg::T(32, true), 3, 3),
+                (Cfg::T(16, true), 0, 3),
             ]);
         }
         let all_cfgs = [
@@ -1510,7 +1516,7 @@ fn main() {
                             if cfg.is_thin() && n % workers == me {
                                 boundaries(&mut w, *cfg)?;
                             }
-                            let count = if thorough { 1500 } else { 60 };
+                            let count = if thorough { 3000 } else { 300 };
                             random_cases(&mut w, *cfg, &mut rng, count, if thorough { 24 } else { 14 })?;
                         }
                         Ok(w.stats)
